@@ -454,7 +454,11 @@ func parseValues(out string, into map[string]string) {
 		if pair == nil || !pair.isL || len(pair.list) != 2 {
 			continue
 		}
-		into[pair.list[0].String()] = pair.list[1].String()
+		k := pair.list[0].String()
+		if !strings.HasPrefix(k, "|") {
+			k = "|" + k + "|" // cvc5 prints simple symbols without bars
+		}
+		into[k] = pair.list[1].String()
 	}
 }
 
